@@ -38,6 +38,27 @@ def run(chk: Check, proj: Project) -> None:
     s2(chk, proj, m)
     s3(chk, proj, m)
     s4(chk, proj, m)
+    s5_css_forms(chk, proj, m)
+
+
+def s5_css_forms(chk: Check, proj: Project, m) -> None:
+    chk.rule("S5", "every accepted form of Media.css reaches Django's Media as a dict (Django iterates `.items()`): the normalisation leaves no non-dict value behind - in particular not the EMPTY list / tuple / string, which a plain truthiness guard skips")
+    f = m.func("_normalize_media")
+    chk.analysed(fkey(m, f))
+    mp = params(f)[0]
+    css = f"{mp}.css"
+    guards = [st for st in f.body if isinstance(st, ast.If) and any(pol and t == css for t, pol in [(norm(e), p_) for e, p_ in __import__("djc_sa.cfg", fromlist=["x"]).flatten_conj([(st.test, True)])])]
+    if not guards:
+        chk.holds("S5", "component_media:_normalize_media:empty-css-forms", m.loc(f), "the css normalisation is not guarded by plain truthiness", nontrivial=False)
+        return
+    g = guards[0]
+    # an earlier (or else-) statement maps the falsy non-None values to a dict
+    fixes = [st for st in ast.walk(f) if isinstance(st, ast.Assign) and norm(st.targets[0]) == css and isinstance(st.value, (ast.Dict, ast.Call)) and (norm(st.value) in ("{}", "dict()"))
+             and any((t == css and not pol) or t == f"not {css}" for t, pol in cond_atoms(st))]
+    ok = bool(fixes)
+    chk.ob("S5", "component_media:_normalize_media:empty-css-forms", m.loc(fixes[0]) if fixes else m.loc(g), ok,
+           f"`{short(fixes[0])}` turns the empty forms into a dict; the non-empty ones are normalised under `if {short(g.test)}`" if ok else
+           f"`if {short(g.test)}` skips the normalisation for an EMPTY list / tuple / string, which then reaches Django's Media unchanged: `class Media: css = []` makes Component.media raise AttributeError ('list' object has no attribute 'items') when it is read or rendered")
 
 
 def s4(chk: Check, proj: Project, m) -> None:
@@ -344,6 +365,33 @@ def s3(chk: Check, proj: Project, m) -> None:
            f"`{short(enclosing_stmt(wr[0]))}` writes into a media record while a value is being READ: an inherited value remembered on the asking class makes that class look like the nearest one defining the pair - afterwards the other member of the pair (js vs js_file) is None on it, and in a diamond the answer depends on which class was read first")
     rm_ = m.func("_resolve_media")
     rcls = params(rm_)[0]
+    # the relative-path rewrite of the class's own Media happens whenever the class is resolved at all: once `resolved` is set
+    # the `.media` getter skips the rewrite too, so a condition on the file attributes makes `.media` depend on access order
+    rel = [c for c in calls(rm_) if last_attr(c.func) == "_resolve_component_relative_files"]
+    if not rel:
+        chk.undecided("S3", "component_media:_resolve_media:relative-files-whenever-resolved", m.loc(rm_), "_resolve_component_relative_files(...) call not found")
+    else:
+        extra = [(t, pol) for t, pol in cond_atoms(enclosing_stmt(rel[0])) if not ("resolved" in t or "get_import_path" in t or "Component'" in t)]
+        chk.ob("S3", "component_media:_resolve_media:relative-files-whenever-resolved", m.loc(rel[0]), not extra,
+               "the Media paths are rewritten relative to the component directory on every path that marks the class resolved" if not extra else
+               f"_resolve_component_relative_files(...) runs only if `{('' if extra[0][1] else 'not ') + extra[0][0]}`, yet the class is marked resolved either way: a component with everything inlined and RELATIVE Media files keeps `card.js` instead of `cards/card.js` when .template / .js / .css is read before .media - and the right paths when .media is read first")
+    gm2 = m.func("_get_comp_cls_media")
+    budget = []
+    for lp in [x for x in ast.walk(gm2) if isinstance(x, ast.While)]:
+        for r in [x for x in ast.walk(lp) if isinstance(x, ast.Raise)]:
+            for t, pol in cond_atoms(r):
+                names_ = set(re.findall(r"[A-Za-z_]\w*", t))
+                counters = {n_ for n_ in names_ if any(isinstance(x, ast.AugAssign) and norm(x.target) == n_ and any(a is lp for a in ancestors(x)) for x in ast.walk(lp))}
+                if counters and any(isinstance(o, (ast.Gt, ast.GtE, ast.Lt, ast.LtE)) for c_ in ast.walk(r.parent if hasattr(r, "parent") else r) if isinstance(c_, ast.Compare) for o in c_.ops):
+                    bound_src = " ".join(norm(v) for n_ in names_ - counters for _s, v in assignments(gm2, n_) if v is not None)
+                    budget.append((r, t, bound_src))
+    if budget:
+        r, t, bsrc = budget[0]
+        mro_bound = any(k in bsrc for k in ("mro()", "__mro__", "__bases__"))
+        chk.ob("S3", "component_media:_get_comp_cls_media:no-step-budget-from-the-mro", m.loc(r), False if mro_bound else None,
+               f"the work loop gives up when `{t}` with a budget computed from `{bsrc}`: classes reached through `Media.extend = [...]` and THEIR ancestors are not in the requested class's MRO and are not budgeted for - `class Page(Component): class Media: extend = [Toolkit]` with Toolkit on a four-class chain raises if Page.media is the first media read, and works if the chain was read before (access-order dependence)")
+    else:
+        chk.holds("S3", "component_media:_get_comp_cls_media:no-step-budget-from-the-mro", m.loc(gm2), "the work loop ends when its stack is empty; no step budget can cut a legitimate hierarchy short")
     others = [c for c in ast.walk(rm_) if isinstance(c, ast.Call) and last_attr(c.func) == "_resolve_media"] + [x for x in ast.walk(rm_) if isinstance(x, ast.Attribute) and x.attr in ("__bases__", "__mro__", "mro") and norm(x.value) == rcls]
     chk.ob("S3", "component_media:_resolve_media:own-class-only", m.loc(others[0]) if others else m.loc(rm_), not others,
            f"_resolve_media loads the files of `{rcls}` alone; ancestors are resolved by the MRO walk only when the walk actually reaches them" if not others else
